@@ -29,32 +29,33 @@ const (
 	// (load_view.go: hfields is only set while processing row 0): `*` yields
 	// no columns, later ON/USING references fail
 	// -> signature lateral_empty_left_header_lost.
-	avoidKnownLateralEmptyLeft = true
+	avoidKnownLateralEmptyLeft = false
 	// `*` over a relation holding two merged USING/NATURAL columns of the
 	// same name (e.g. (a JOIN b USING (k)) CROSS JOIN (c JOIN d USING (k)))
 	// shows the first merged column twice: `*` is expanded to references by
 	// name and a bare name resolves to the first join column
 	// -> signature star_duplicate_using_column.
-	avoidKnownStarDuplicateUsingColumn = true
+	avoidKnownStarDuplicateUsingColumn = false
 	// The grammar of a comma separated FROM list only continues after a
 	// subquery item (parser.y joinable_tables lacks `table ',' joinable_tables`):
 	// FROM t1, t2, t3 is a syntax error although the manual documents
 	// FROM table [, {table|LATERAL laterable_table} ...]
 	// -> signature from_comma_list_syntax_error.
-	avoidKnownCommaListSyntax = true
+	avoidKnownCommaListSyntax = false
 	// After a join without trailing condition (CROSS JOIN, NATURAL JOIN) a
-	// further join that starts with INNER, LEFT, RIGHT or FULL is attached to
-	// the right operand only: a CROSS JOIN b LEFT JOIN c ON c.x = a.x parses
+	// further join that starts with INNER, LEFT or RIGHT (the tokens missing
+	// from `%left CROSS FULL NATURAL JOIN` in parser.y) is attached to the
+	// right operand only: a CROSS JOIN b LEFT JOIN c ON c.x = a.x parses
 	// as a CROSS JOIN (b LEFT JOIN c ON ...) ("field a.x does not exist";
-	// RIGHT/FULL joins silently pad differently), whereas a following plain
-	// JOIN / CROSS JOIN / NATURAL JOIN is attached to the whole left side
+	// RIGHT joins silently pad differently), whereas a following plain
+	// JOIN / CROSS JOIN / NATURAL JOIN / FULL JOIN is attached to the whole left side
 	// -> signature join_after_cross_or_natural_binds_right. Avoided by
 	// writing the left operand in parentheses.
-	avoidKnownJoinBindsRight = true
+	avoidKnownJoinBindsRight = false
 )
 
 // joinBindsRightShape visits every join written as `L <kw> JOIN r` where L is
-// an unparenthesised CROSS/NATURAL join and <kw> is INNER/LEFT/RIGHT/FULL.
+// an unparenthesised CROSS/NATURAL join and <kw> is INNER/LEFT/RIGHT.
 func joinBindsRightShape(q *ref.SelQuery, fix bool) bool {
 	if q == nil {
 		return false
@@ -70,7 +71,7 @@ func joinBindsRightShape(q *ref.SelQuery, fix bool) bool {
 			}
 		case s.Kind == "join":
 			l := s.Left
-			kw := !s.Natural && (s.JoinType == "LEFT" || s.JoinType == "RIGHT" || s.JoinType == "FULL" || (s.JoinType == "INNER" && s.InnerKw))
+			kw := !s.Natural && (s.JoinType == "LEFT" || s.JoinType == "RIGHT" || (s.JoinType == "INNER" && s.InnerKw))
 			if kw && l.Kind == "join" && !l.Paren && (l.JoinType == "CROSS" || l.Natural) {
 				found = true
 				if fix {
